@@ -648,7 +648,7 @@ pub fn run(ctx: &Ctx) -> Result<Evidence, String> {
     if acc.counters.get("HARNESS_unparsable").copied().unwrap_or(0) > 0 {
         return Err("a generated C05 query is not parsable by oracle (b)".into());
     }
-    let mut ev = Evidence::new("cases: (i) every formula of the enumerated family (6 atoms and their negations; all pairs under && and ||; sampled 3/4-operand precedence mixes and parenthesised/negated level-2 combinations) x a carrier whose 183 children realise the valuations of the atoms incl. falsy/empty member values, as array elements and as object member values; (ii) existence tests over members valued null,false,0,-0.0,\"\",[],{}; (iii) nested-filter scoping queries x curated + random documents; (iv) random nested filters; (v) parenthesis / negation / nested-filter ladders of depth 1..100 whose meaning is known; (vi) pairs of existence tests and of singular comparison operands that print alike ($.a.b / $.ab, $.x[1] / $.x1, $.l[:] / $.l[0:], same tail under $ and @) in six connective forms over documents where their values vary independently; (vii) one-of / none-of chains of 2..6 (in)equalities between one singular query and literals of every type over int / float twins. Oracles: reference evaluator (kept children in order), Boolean laws between rewritings (oracle-free), H2 per-child decisions. Non-trivial = distinct cases whose filter keeps some but (for formulas) not all children.");
+    let mut ev = Evidence::new("cases: (i) every formula of the enumerated family (6 atoms and their negations; all pairs under && and ||; sampled 3/4-operand precedence mixes and parenthesised/negated level-2 combinations) x a carrier whose 183 children realise the valuations of the atoms incl. falsy/empty member values, as array elements and as object member values; (ii) existence tests over members valued null,false,0,-0.0,\"\",[],{}; (iii) nested-filter scoping queries x curated + random documents; (iv) random nested filters; (v) parenthesis / negation / nested-filter ladders of depth 1..100 whose meaning is known; (vi) pairs of existence tests and of singular comparison operands that print alike ($.a.b / $.ab, $.x[1] / $.x1, $.l[:] / $.l[0:], same tail under $ and @) in six connective forms over documents where their values vary independently; (viii) count() / value() / length() over multi-segment queries inside a filter that stands in an existence test; (vii) one-of / none-of chains of 2..6 (in)equalities between one singular query and literals of every type over int / float twins. Oracles: reference evaluator (kept children in order), Boolean laws between rewritings (oracle-free), H2 per-child decisions. Non-trivial = distinct cases whose filter keeps some but (for formulas) not all children.");
     ev.set("exhaustive", json!(false));
     ev.set("formulas_enumerated", json!(fs.len()));
     ev.assume("reference evaluator (oracle c) as in C01; Boolean laws need no oracle");
